@@ -103,10 +103,14 @@ def check_draw(gen, method, fields, b, n_eff, p, sizes, what):
     return f"reshuffle iff {pred}; batch = dynamic_slice(store', idx', {sizes})"
 
 
-def check_param_draw(G):
-    """one draw of the parameter generator: per key, own key / samples / index; batch = slice of the (possibly reshuffled) samples"""
+def check_param_draw(G, reorder=None):
+    """one draw of the parameter generator: per key, own key / samples / index; batch = slice of the (possibly reshuffled) samples.
+    reorder: name of a dictionary field whose insertion order is reversed (the dictionaries are keyed by parameter name: pairing
+    two of them by position instead is reported)"""
     keys = ('nu', 'th')
     gen = G.param(keys)
+    if reorder is not None:
+        gen = gen.replace_fields({reorder: dict(reversed(list(gen.fields[reorder].items())))})
     g = freeze(gen)
     new, batch = g.param_batch()
     for k in keys:
@@ -169,6 +173,9 @@ def run(chk):
 
     go_param = lambda: check_param_draw(G)
     chk.run("C09.R1", f"{MOD}:DataGeneratorParameter.param_batch", {}, go_param, construct="DataGeneratorParameter.param_batch step")
+    for fld in ('keys', 'param_n_samples', 'curr_param_idx'):
+        chk.run("C09.R1", f"{MOD}:DataGeneratorParameter.param_batch", {"reversed_insertion_order": fld},
+                (lambda fld=fld: check_param_draw(G, reorder=fld)), construct="DataGeneratorParameter.param_batch step, one dictionary in another order")
 
     # ---------------- R3: get_batch composes the individual draws and carries every advanced state
     chk.rule("C09.R3", "get_batch advances every store of the generator exactly once (each draw applied to the generator "
